@@ -264,3 +264,64 @@ def simpleBonds : List (Nat × Nat × Nat) → Bool
   | b :: tl => b.1 != b.2.1 && !tl.any (samePair b) && simpleBonds tl
 
 end ChythonModel.Spec.Smiles
+
+/-!
+## Ring bonds and branches in any order (lenient reading)
+
+OpenSMILES writes `branched_atom ::= atom ringbond* branch*`. Readers in practice — RDKit, and the strings shipped with
+chython — take ring bonds and branches after an atom in any order: `branched_atom ::= atom (ringbond | branch)*`
+(`C(C)1CC1`). `L α` is that grammar in continuation form: besides a side branch or the next chain atom, the continuation
+of an atom may start with a ring bond *of that atom*. The strict grammar is the sub-language in which no ring bond
+follows a branch. Meaning of a ring bond: exactly `ringOne` above (open / close with agreeing symbols, never at the
+opening atom); bonds are listed in writing order of their later end; no ring may stay open.
+-/
+namespace ChythonModel.Spec.Smiles
+
+inductive L (α : Type)
+  | done
+  | ring (rb : RingBond) (rest : L α)                -- a ring bond written at the current atom
+  | side (l : Link) (a : α) (inner rest : L α)       -- '(' l a inner ')' rest
+  | next (l : Link) (a : α) (rest : L α)             -- l a rest
+  deriving Repr
+
+structure ChainL (α : Type) where
+  start : α
+  k : L α
+
+def printL {α} : L α → List (Sym α)
+  | .done => []
+  | .ring rb rest => printRing rb ++ printL rest
+  | .side l a inner rest => .lpar :: printLink l ++ .atom a :: printL inner ++ .rpar :: printL rest
+  | .next l a rest => printLink l ++ .atom a :: printL rest
+
+def printChainL {α} (c : ChainL α) : List (Sym α) := .atom c.start :: printL c.k
+
+/-- atoms, bonds and ring table after a continuation hanging on atom number `p` (payload `pa`), next free number `n` -/
+def denoteL {α} (arom : α → Bool) (p : Nat) (pa : α) (n : Nat) (tbl : List (OpenRing α)) :
+    L α → Option (List α × List (Nat × Nat × Nat) × List (OpenRing α))
+  | .done => some ([], [], tbl)
+  | .ring rb rest =>
+    match ringOne arom tbl p pa rb with
+    | none => none
+    | some (tbl1, b1) =>
+      match denoteL arom p pa n tbl1 rest with
+      | none => none
+      | some (as, bs, tbl2) => some (as, b1 ++ bs, tbl2)
+  | .side l a inner rest =>
+    match denoteL arom n a (n + 1) tbl inner with
+    | none => none
+    | some (as1, bs1, tbl1) =>
+      match denoteL arom p pa (n + 1 + as1.length) tbl1 rest with
+      | none => none
+      | some (as2, bs2, tbl2) => some (a :: as1 ++ as2, linkBonds arom l n p a pa ++ bs1 ++ bs2, tbl2)
+  | .next l a rest =>
+    match denoteL arom n a (n + 1) tbl rest with
+    | none => none
+    | some (as1, bs1, tbl1) => some (a :: as1, linkBonds arom l n p a pa ++ bs1, tbl1)
+
+def denoteChainL {α} (arom : α → Bool) (c : ChainL α) : Option (Graph α) :=
+  match denoteL arom 0 c.start 1 [] c.k with
+  | none => none
+  | some (as, bs, tbl) => if tbl.isEmpty then some { atoms := c.start :: as, bonds := bs } else none
+
+end ChythonModel.Spec.Smiles
